@@ -1342,6 +1342,18 @@ func (l *channelLink) htlcManager(ctx context.Context) {
 		return
 	}
 
+	// If we acked updates of the remote party (by revoking) before the link
+	// went down but never signed a commitment covering them, nothing else
+	// would trigger that signature after the restart: the batch ticker only
+	// looks at our own pending updates. Send the owed commitment now so the
+	// remote party's settles/fails don't linger on its commitment until
+	// some unrelated update happens to be signed.
+	if l.channel.OweCommitment() {
+		if !l.updateCommitTxOrFail(ctx) {
+			return
+		}
+	}
+
 	// Now that we've received both channel_ready and channel reestablish,
 	// we can go ahead and send the active channel notification. We'll also
 	// defer the inactive notification for when the link exits to ensure
